@@ -721,11 +721,8 @@ void File::uncompressedFile2ReadWriteQueue() {
         return;
     }
 
-    int32_t tmp = 0;
-    if (obj->calculateObjectSize() > ohb.objectSize) {
-        // we are about to read too much data
-        tmp = ohb.objectSize - obj->calculateObjectSize();
-    }
+    /* start of the object in the stream */
+    const std::streampos objectStart = m_uncompressedFile.tellg();
 
     /* read object */
     try {
@@ -739,8 +736,10 @@ void File::uncompressedFile2ReadWriteQueue() {
         throw Exception("File::uncompressedFile2ReadWriteQueue(): Read beyond end of file.");
     }
 
-    if (tmp!=0) {
-        m_uncompressedFile.seekg(tmp);
+    /* the object declared less than was read: continue right behind its declared end */
+    const std::streamoff consumed = m_uncompressedFile.tellg() - objectStart;
+    if (consumed > static_cast<std::streamoff>(ohb.objectSize)) {
+        m_uncompressedFile.seekg(static_cast<std::streamoff>(ohb.objectSize) - consumed, std::ios_base::cur);
     }
 
     /* statistics */
